@@ -11,6 +11,7 @@ import time
 
 VERIF = os.path.dirname(os.path.dirname(os.path.abspath(__file__)))
 SPEC = os.path.join(VERIF, "spec")
+T0 = time.time()          # (about) when this process started
 REPO = os.environ.get("VERIF_REPO", "/repo")
 SRC = os.path.join(REPO, "src")
 PY = "/venv/bin/python"
@@ -122,7 +123,9 @@ class Result:
         self.violations.append(rec)
 
     def finish(self) -> int:
-        os.makedirs(os.path.join(VERIF, "evidence"), exist_ok=True)
+        # evidence/ describes runs on /repo; runs of my own tooling against another tree (VERIF_REPO=<scratch copy>) must not overwrite it
+        evdir = os.path.join(VERIF, "evidence") if os.path.realpath(REPO) == "/repo" else os.path.join(VERIF, ".cache", "evidence-other-tree")
+        os.makedirs(evdir, exist_ok=True)
         findings = {f["id"]: f for f in load_findings()}
         for key, n in sorted(self.known.items()):
             print(f"KNOWN-FINDING: property={self.prop} {findings[key]['what']} [{key}; {n} case(s) this run]")
@@ -160,7 +163,7 @@ class Result:
             "wall_s": round(time.time() - self.t0, 2),
             "violations": len(self.violations),
         }
-        with open(os.path.join(VERIF, "evidence", f"{self.prop}.json"), "w") as f:
+        with open(os.path.join(evdir, f"{self.prop}.json"), "w") as f:
             json.dump(ev, f, indent=1, default=repr)
         status = 1 if self.violations else 0
         print(
